@@ -7,8 +7,8 @@ cd "$(dirname "$0")/.." || exit 3
 for d in seeded/*/; do
   s=$(basename $d); id=${s%%-*}
   if [ $# -gt 0 ]; then case " $* " in *" $id "*) ;; *) continue;; esac; fi
-  git -C $R apply $PWD/$d/patch.diff 2>/dev/null || git -C $R apply -3 $PWD/$d/patch.diff >/dev/null 2>&1 || { echo "$s APPLY-FAILED"; git -C $R checkout -- . ; continue; }
+  git -C $R apply $PWD/$d/patch.diff 2>/dev/null || git -C $R apply -3 $PWD/$d/patch.diff >/dev/null 2>&1 || { echo "$s APPLY-FAILED"; git -C $R reset -q --hard HEAD; continue; }
   VERIF_EVIDENCE_DIR=/tmp/reseed-evidence ./check $id quick > /tmp/reseed.out 2>&1; rc=$?
-  git -C $R checkout -- .
+  git -C $R reset -q --hard HEAD   # (a three-way apply stages its result: checkout alone would keep it)
   echo "$s exit=$rc $(grep -o 'violation \[[^]]*\]' /tmp/reseed.out | sort -u | head -3 | tr '\n' ' ')"
 done
